@@ -4,6 +4,7 @@ package c08
 import (
 	"errors"
 	"fmt"
+	"sort"
 	"strings"
 	"sync"
 	"sync/atomic"
@@ -41,7 +42,11 @@ type Case struct {
 	// root's Close was called, so they too must be delivered before Close returns, never after.
 	// Dual: ONE reporter object is configured in both roles (Reporter and CachedReporter); it is still
 	// one reporter: flushed at the end and closed exactly once
-	Dual      bool  `json:"dual,omitempty"`
+	Dual bool `json:"dual,omitempty"`
+	// Two: TWO reporter objects are configured, a plain one and a cached one (both with or both
+	// without io.Closer). Whichever of them the passes deliver to is the one that is flushed after
+	// the last delivery and - if it can be closed - closed, once
+	Two       bool  `json:"two,omitempty"`
 	PreClosed []int `json:"preClosed,omitempty"`
 	Reacquire bool  `json:"reacquire,omitempty"`
 	Sched     []int `json:"sched"`
@@ -80,6 +85,7 @@ func gen(t *rapid.T) Case {
 		c.Recorders = append(c.Recorders, incs(5, "nincs", true))
 	}
 	c.Dual = rapid.IntRange(0, 5).Draw(t, "dual") == 0
+	c.Two = !c.Dual && rapid.IntRange(0, 5).Draw(t, "two") == 0
 	c.Closers = rapid.SampledFrom([]int{1, 1, 1, 2, 3}).Draw(t, "closers")
 	c.After = rapid.Bool().Draw(t, "after")
 	c.Sched = sgen.Choices(t, 200, nr+c.Closers+3)
@@ -113,6 +119,13 @@ func run(c Case) (pbt.Outcome, error) {
 		} else {
 			dc := rec.DualCloser{Dual: d, Err: cerr}
 			opts.Reporter, opts.CachedReporter = dc, dc
+		}
+	} else if c.Two {
+		rs, rc := &rec.Stats{L: log, Child: 1}, &rec.Cached{L: log, Child: 2}
+		if c.Closer == 0 {
+			opts.Reporter, opts.CachedReporter = rs, rc
+		} else {
+			opts.Reporter, opts.CachedReporter = rec.StatsCloser{Stats: rs, Err: cerr}, rec.CachedCloser{Cached: rc, Err: cerr}
 		}
 	} else if c.Cached {
 		r := &rec.Cached{L: log}
@@ -329,6 +342,8 @@ func run(c Case) (pbt.Outcome, error) {
 		return k == rec.KCounter || k == rec.KGauge || k == rec.KHValue || k == rec.KHDuration || k == rec.KTimer
 	}
 	delivered := map[string]int64{}
+	lastPassDeliveryOf, lastFlushOf := map[int]int{}, map[int]int{} // per reporter (Two): log positions
+	closedReporter := -1
 	lastDelivery, lastFlushBeforeRet, closeSeq, nClose := -1, -1, -1, 0
 	gaugeSeen := false
 	for _, e := range ev {
@@ -343,6 +358,12 @@ func run(c Case) (pbt.Outcome, error) {
 			}
 			if closeSeq >= 0 {
 				errs.Addf("reporter call after the reporter was closed: %v", e)
+			}
+			if isDelivery(e.Kind) && e.Kind != rec.KTimer {
+				lastPassDeliveryOf[e.Thread] = e.Seq // (timers go out at once, passes deliver the rest)
+			}
+			if e.Kind == rec.KFlush && e.Seq < lastRet {
+				lastFlushOf[e.Thread] = e.Seq
 			}
 			if isDelivery(e.Kind) {
 				lastDelivery = e.Seq
@@ -362,6 +383,7 @@ func run(c Case) (pbt.Outcome, error) {
 		case e.Kind == rec.KClose:
 			nClose++
 			closeSeq = e.Seq
+			closedReporter = e.Thread
 		}
 	}
 	for id, u := range upper {
@@ -378,6 +400,18 @@ func run(c Case) (pbt.Outcome, error) {
 	}
 	if lastDelivery >= 0 && lastFlushBeforeRet < lastDelivery {
 		errs.Addf("the last delivery (log %d) is not followed by a Flush before Close returned (last flush at %d, return at %d)", lastDelivery, lastFlushBeforeRet, lastRet)
+	}
+	if c.Two {
+		for r, at := range lastPassDeliveryOf {
+			if f, ok := lastFlushOf[r]; !ok || f < at {
+				errs.Addf("two reporters: reporter %d received its last delivery of a pass at log %d and no Flush after it before Close returned (its last Flush: %d, have=%v)", r, at, f, ok)
+			}
+		}
+		if nClose == 1 {
+			if _, got := lastPassDeliveryOf[closedReporter]; !got && len(lastPassDeliveryOf) > 0 {
+				errs.Addf("two reporters: the passes delivered to reporter(s) %v, but the one that was closed is reporter %d, which they never delivered to", keysOf(lastPassDeliveryOf), closedReporter)
+			}
+		}
 	}
 	if c.Closer == 0 {
 		if nClose != 0 {
@@ -458,6 +492,9 @@ func run(c Case) (pbt.Outcome, error) {
 	if c.Dual {
 		out.Classes = append(out.Classes, "one-reporter-object-in-both-roles")
 	}
+	if c.Two {
+		out.Classes = append(out.Classes, "a-plain-and-a-cached-reporter")
+	}
 	if res.Detaches > 0 {
 		out.Classes = append(out.Classes, "close-waited-for-loop")
 	}
@@ -467,7 +504,16 @@ func run(c Case) (pbt.Outcome, error) {
 func TestC08(t *testing.T) {
 	pbt.Main(t, pbt.Prop[Case]{
 		ID: "C08", Name: "sched",
-		Rule: "cooperative-scheduler mode with the REAL report-loop goroutine adopted as a controlled thread (it parks at its hooks; resuming it from 'idle' waits for the next real tick of a 100us..1ms ticker), or a root without interval: rapid generates 0..8 subscopes, counters, pre-recorded values, 0..2 recorder threads, 1..3 concurrent Close callers, post-Close activity (record on old handles, obtain scopes from the root and from subscope handles that predate the Close, Close again), plain/cached reporter with/without io.Closer (nil or error), AND the schedule (<=200 choices: where the loop goroutine is - before the first tick, between ticks, at any hook inside a periodic pass or inside a reporter call - when Close is called, and how Close's steps interleave with it). Oracle over the ordered reporter log with Close call/return markers: everything recorded before Close was called is delivered (bounds up to all) before the last Close call returned, followed by a Flush; reporter closed exactly once after that flush inside the winner's call whose return value is its error, others nil; no reporter call after the return; the loop goroutine has ended by then; further Close returns nil and calls nothing; late scopes deliver nothing; no panic, no hang. Non-trivial: Close was called while the loop goroutine was inside a periodic pass. Distinct: FNV-64 of program+schedule JSON.",
+		Rule: "cooperative-scheduler mode with the REAL report-loop goroutine adopted as a controlled thread (it parks at its hooks; resuming it from 'idle' waits for the next real tick of a 100us..1ms ticker), or a root without interval: rapid generates 0..8 subscopes, counters, pre-recorded values, 0..2 recorder threads, 1..3 concurrent Close callers, post-Close activity (record on old handles, obtain scopes from the root and from subscope handles that predate the Close, Close again), plain/cached reporter (or one object in both roles, or a plain AND a cached reporter) with/without io.Closer (nil or error), AND the schedule (<=200 choices: where the loop goroutine is - before the first tick, between ticks, at any hook inside a periodic pass or inside a reporter call - when Close is called, and how Close's steps interleave with it). Oracle over the ordered reporter log with Close call/return markers: everything recorded before Close was called is delivered (bounds up to all) before the last Close call returned, followed by a Flush; reporter closed exactly once after that flush inside the winner's call whose return value is its error, others nil; no reporter call after the return; the loop goroutine has ended by then; further Close returns nil and calls nothing; late scopes deliver nothing; no panic, no hang. Non-trivial: Close was called while the loop goroutine was inside a periodic pass. Distinct: FNV-64 of program+schedule JSON.",
 		Gen:  gen, Run: run, Retries: 20,
 	})
+}
+
+func keysOf(m map[int]int) []int {
+	var ks []int
+	for k := range m {
+		ks = append(ks, k)
+	}
+	sort.Ints(ks)
+	return ks
 }
